@@ -46,7 +46,9 @@ fn main() {
             let tier = args[3].as_str();
             let out = args.get(4).cloned().unwrap_or_else(|| "/dev/stdout".into());
             let _ = OUT_PATH.set(out.clone());
-            let thorough = tier == "thorough";
+            // properties whose deepest bounds cost only seconds are always run at those bounds
+            const ALWAYS_DEEP: [&str; 12] = ["C02", "C03", "C04", "C05", "C06", "C07", "C08", "C09", "C13", "C16", "C17", "C19"];
+            let thorough = tier == "thorough" || ALWAYS_DEEP.contains(&id);
             let t0 = std::time::Instant::now();
             let o = match std::panic::catch_unwind(|| props::run(id, thorough)) {
                 Ok(Some(o)) => o,
